@@ -38,6 +38,14 @@ thread_local! {
 /// The order in which a snapshot iterated the keys it wrote (HashMap order), so that a
 /// harness can hand the same order to its model.
 pub fn record_key_order(order: Vec<String>) {
+    if std::env::var("VERIF_PRINT_ORDER").is_ok() {
+        // a process that is about to be killed reports the order before it starts writing
+        let hex: Vec<String> = order
+            .iter()
+            .map(|k| k.bytes().map(|b| format!("{:02x}", b)).collect::<String>())
+            .collect();
+        eprintln!("#order {}", if hex.is_empty() { "-".to_string() } else { hex.join(",") });
+    }
     KEY_ORDERS.with(|o| o.borrow_mut().push(order));
 }
 
